@@ -168,7 +168,12 @@ impl FrameEncoder {
             let writer = (&mut buf).writer();
             let mut serializer = Serializer::from(writer);
             transfer.serialize(&mut serializer)?;
-            let split_index = self.max_frame_body_size - buf.len();
+            // A performative that does not leave room in a frame cannot be sent within
+            // the peer's max-frame-size: an error, not an arithmetic underflow
+            let split_index = self
+                .max_frame_body_size
+                .checked_sub(buf.len())
+                .ok_or_else(transfer_too_large)?;
 
             // Send first frame
             let partial = payload.split_to(split_index);
@@ -188,7 +193,13 @@ impl FrameEncoder {
             transfer.serialize(&mut serializer)?;
 
             let mut remaining_bytes = buf.len() + payload.len();
-            let split_index = self.max_frame_body_size - buf.len();
+            // every middle frame must carry at least one byte of payload, or the
+            // loop below never ends
+            let split_index = self
+                .max_frame_body_size
+                .checked_sub(buf.len())
+                .filter(|n| *n > 0)
+                .ok_or_else(transfer_too_large)?;
 
             while remaining_bytes > self.max_frame_body_size {
                 // The transfer performative can be kept the same for the first n-1 frames
@@ -218,6 +229,12 @@ impl FrameEncoder {
 
         Ok(())
     }
+}
+
+fn transfer_too_large() -> serde_amqp::Error {
+    serde_amqp::Error::Message(String::from(
+        "the transfer performative does not fit in a frame of the peer's max-frame-size",
+    ))
 }
 
 impl Encoder<Frame> for FrameEncoder {
